@@ -73,7 +73,22 @@ func c19Run(c *C19Case, j C19Job, types []reflect.Type, vals []reflect.Value, in
 		}
 		rec := &model.Recorder{}
 		po := guard(func() error {
-			switch g % 4 {
+			switch []int{0, 1, 4, 2, 4, 3, 4, 4}[g%8] {
+			case 4:
+				// pull decoder over a reader with short reads; Next is polled
+				// twice more after the end (a consumer waiting for more input)
+				var chunks [][]byte
+				for i := 0; i < len(data); i += 7 {
+					chunks = append(chunks, data[i:min(i+7, len(data))])
+				}
+				dec := cd.NewDecoder(&chunkReader{chunks: chunks}, 16, rec)
+				err := dec.Next()
+				for i := 0; err == nil && i < 3; i++ {
+					if err2 := dec.Next(); err2 != io.EOF {
+						return fmt.Errorf("Next #%d after the value: %v", i+2, err2)
+					}
+				}
+				return err
 			case 1:
 				dec := cd.NewBytesDecoder(data, rec)
 				err := dec.Next()
@@ -317,7 +332,7 @@ func drawC19(t *rapid.T) any {
 func init() {
 	register(&Property{
 		ID:            "C19",
-		Rule:          "programs of G goroutines (quick: 2..8, thorough: 2..16) released by a barrier, each running its own pipeline — Fold of a fold-side value (custom folders, inlined interfaces, named containers) into an encoder, Fold -> Unfold directly or through the json/ubjson/cborl encoder and parser, or encoder -> parser over a shared event stream, where all goroutines parse the SAME byte slice (encoded once beforehand; entry points Parse, NewBytesDecoder, ParseReader, Parser.Parse by goroutine index; the bytes must be unchanged afterwards) — 1..3 times on its OWN instances (half of the goroutines keep one unfolder, created without target and recycled with Reset + SetTarget before every document) over SHARED input values and SHARED freshly generated reflect.StructOf types (first use under contention) plus pool types incl. the self-referential ones; half of the programs take a FRESH member of a family of 144 self-referential generic types and let the goroutines use R, *R, []R and struct{P *R; S []R} at the same time (first use of a recursive type under contention); a third of the others use a type with a custom UnfoldState (Expander, stateful or processing user unfolder) as slice element, map value and struct field in all goroutines; the binary is built with -race (GORACE=halt_on_error): any race report, 'concurrent map' fatal error or crash is a violation; differential: every goroutine's outcome and value equal those of the same job run alone afterwards. Schedules are sampled by the Go scheduler (GOMAXPROCS 4, varied in the thorough tier), not enumerated. non-trivial = at least two goroutines share an item (type or stream) and route; distinct by case hash",
+		Rule:          "programs of G goroutines (quick: 2..8, thorough: 2..16) released by a barrier, each running its own pipeline — Fold of a fold-side value (custom folders, inlined interfaces, named containers) into an encoder, Fold -> Unfold directly or through the json/ubjson/cborl encoder and parser, or encoder -> parser over a shared event stream, where all goroutines parse the SAME byte slice (encoded once beforehand; entry points Parse, NewBytesDecoder, ParseReader, Parser.Parse, NewDecoder over short reads polled again after io.EOF, by goroutine index; the bytes must be unchanged afterwards) — 1..3 times on its OWN instances (half of the goroutines keep one unfolder, created without target and recycled with Reset + SetTarget before every document) over SHARED input values and SHARED freshly generated reflect.StructOf types (first use under contention) plus pool types incl. the self-referential ones; half of the programs take a FRESH member of a family of 144 self-referential generic types and let the goroutines use R, *R, []R and struct{P *R; S []R} at the same time (first use of a recursive type under contention); a third of the others use a type with a custom UnfoldState (Expander, stateful or processing user unfolder) as slice element, map value and struct field in all goroutines; the binary is built with -race (GORACE=halt_on_error): any race report, 'concurrent map' fatal error or crash is a violation; differential: every goroutine's outcome and value equal those of the same job run alone afterwards. Schedules are sampled by the Go scheduler (GOMAXPROCS 4, varied in the thorough tier), not enumerated. non-trivial = at least two goroutines share an item (type or stream) and route; distinct by case hash",
 		New:           func() any { return &C19Case{} },
 		Draw:          drawC19,
 		Check:         checkC19,
